@@ -69,12 +69,15 @@ class Bag(object):
 
 
 def corrupt_value(name, x):
+  if isinstance(name, int):            # thorough tier: every byte value
+    return name
   return {"zero": 0, "ff": 0xff, "flip80": x ^ 0x80, "inc": (x + 1) & 0xff}[name]
 
 
 def drive_corrupt(item):
   """every single-byte corruption of one frame, as is and with checksums re-computed"""
-  desc, values = item
+  desc, values = item[0], item[1]
+  reseal = item[2] if len(item) > 2 else True
   st = [[x["k"], x["v"]] for x in desc["st"]]
   frame, lay = F.build(st, desc["plen"], desc["pad"])
   bag = Bag()
@@ -88,7 +91,7 @@ def drive_corrupt(item):
       m[pos] = v
       m = bytes(m)
       variants = [("raw", m)]
-      s = F.reseal(m, lay)
+      s = F.reseal(m, lay) if reseal else m
       if s != m:
         variants.append(("resealed", s))
       for tag, data in variants:
